@@ -282,6 +282,12 @@ LONG_ENTRIES = [
     ["long/link", AE_IFLNK, 0o777, 1, 2, 4001, b"", b"t" * 90 + b"/" + b"u" * 210, b"", 0, []],
     ["long/short.txt", AE_IFREG, 0o600, 1, 2, 4002, b"short\n", b"", b"", 0, []],
 ]
+# members with extended attributes of a few hundred incompressible bytes each (xar and pax store them apart from the body)
+XATTR_ENTRIES = [
+    ["xa/f%02d" % k, AE_IFREG, 0o644, 1, 2, 5000 + k, bytes((k * 7 + i * 13) & 0xff for i in range(300 + 37 * k)), b"", b"", 0, [],
+     [["user.a", bytes((i * i + 11 * k + (i >> 3)) & 0xff for i in range(200 + 61 * k))], ["user.b%d" % k, bytes((i * 29 + k) & 0xff for i in range(97))]]]
+    for k in range(9)
+]
 WRITER_SPECS = [
     ("ustar", "", "", STD_ENTRIES), ("pax", "", "", STD_ENTRIES), ("paxr", "", "", STD_ENTRIES),
     ("gnutar", "", "", STD_ENTRIES), ("v7tar", "", "", STD_ENTRIES),
@@ -301,6 +307,7 @@ WRITER_SPECS = [
     ("gnutar", "gzip", "", LONG_ENTRIES),
 ] + [("ustar", flt, "", BIGR_ENTRIES) for flt in ("compress", "gzip", "bzip2", "xz", "zstd", "lz4", "lzip", "lzma")] + [
     ("zip", "", "", BIGR_ENTRIES), ("7zip", "", "", BIGR_ENTRIES),
+    ("xar", "", "", XATTR_ENTRIES), ("pax", "", "", XATTR_ENTRIES), ("xar", "", "xar:compression=none", XATTR_ENTRIES),
 ]
 
 def writer_archives(mk_exe):
@@ -313,7 +320,7 @@ def writer_archives(mk_exe):
         v = vparse(l)
         if v[0] < -20 or v[-2] < -20:
             continue
-        res.append(("w:%s%s%s%s" % (f, "+" + flt if flt else "", "/" + opt if opt else "", "#big" if ents is BIG_ENTRIES else "#sparse" if ents is SPARSE_ENTRIES else "#noise" if ents is BIGR_ENTRIES else "#long" if ents is LONG_ENTRIES else ""), v[-1]))
+        res.append(("w:%s%s%s%s" % (f, "+" + flt if flt else "", "/" + opt if opt else "", "#big" if ents is BIG_ENTRIES else "#sparse" if ents is SPARSE_ENTRIES else "#noise" if ents is BIGR_ENTRIES else "#long" if ents is LONG_ENTRIES else "#xattr" if ents is XATTR_ENTRIES else ""), v[-1]))
     return res
 
 def read_case(arc, source=(1,), rplan=(), has_skip=0, has_seek=0, faults=(), consume=(0, 4096, 0), noraw=0, options=b""):
